@@ -1192,6 +1192,12 @@ func runC08(c *hc.Ctx) error {
 		if deeperGone {
 			c.Count("fates differ: present at a coarser tile matrix, absent at a deeper one")
 		}
+		type freshReq struct {
+			g   *Grid
+			ids []int
+			r   *Result
+		}
+		var fresh []freshReq
 		for mask := 1; mask < 1<<len(all); mask++ {
 			var ids []int
 			for k, id := range all {
@@ -1213,22 +1219,7 @@ func runC08(c *hc.Ctx) error {
 			if unexpectedPanic(c, gm, poly, ids, cfg, r) {
 				continue
 			}
-			if i%3 == 0 {
-				// a caller that enumerates its requests in ONE buffer (refilled for every request, as a subset enumeration does)
-				buf := sharedIDs[:len(ids)]
-				copy(buf, ids)
-				fp, _ := gm.toFloatPoly(poly)
-				r2 := runSnapShared(gm, fp, buf, cfg, watchdog)
-				c.Sum.Evaluations++
-				c.Count("request made from a buffer that held the previous request")
-				if r2.Panic != r.Panic || !reflect.DeepEqual(r2.Raw, r.Raw) {
-					obs := any(r2.Raw)
-					if r2.Panic != "" {
-						obs = r2.Panic + ": " + r2.PanicMsg
-					}
-					c.Violate(hc.Violation{What: fmt.Sprintf("the request %v made from an id buffer that held the previous request returned other keys or geometry than the same request made from a fresh slice", ids), Input: caseJSON(gm, poly, ids, cfg, r), Observed: obs})
-				}
-			}
+			fresh = append(fresh, freshReq{gm, append([]int(nil), ids...), r})
 			for id := range r.Raw {
 				if !containsInt(ids, id) {
 					c.Violate(hc.Violation{What: fmt.Sprintf("result contains tile matrix %d which was not requested", id), Input: caseJSON(gm, poly, ids, cfg, r)})
@@ -1249,8 +1240,93 @@ func runC08(c *hc.Ctx) error {
 				c.Sample(caseJSON(gm, poly, ids, cfg, r))
 			}
 		}
+		if i%3 == 0 {
+			// a caller that enumerates its requests in ONE buffer, refilled for every request (as a subset enumeration
+			// does), with nothing else snapped in between: each answer must be the one the same request got from a fresh slice
+			for _, fr := range fresh {
+				buf := sharedIDs[:len(fr.ids)]
+				copy(buf, fr.ids)
+				fp, _ := fr.g.toFloatPoly(poly)
+				r2 := runSnapShared(fr.g, fp, buf, cfg, watchdog)
+				c.Sum.Evaluations++
+				c.Count("request made from a buffer that held the previous request")
+				if r2.Panic != fr.r.Panic || !reflect.DeepEqual(r2.Raw, fr.r.Raw) {
+					obs := any(r2.Raw)
+					if r2.Panic != "" {
+						obs = r2.Panic + ": " + r2.PanicMsg
+					}
+					c.Violate(hc.Violation{What: fmt.Sprintf("the request %v made from an id buffer that held the previous request returned other keys or geometry than the same request made from a fresh slice", fr.ids), Input: caseJSON(fr.g, poly, fr.ids, cfg, fr.r), Observed: obs})
+					break
+				}
+			}
+		}
 	}
 	return nil
+}
+
+// sameIDSets: two tile matrix sets that carry the same identifier but lie elsewhere (a copy of a set with an edited point
+// of origin), used one after the other in one process: each must be range-checked against ITS OWN extent.
+func sameIDSets(c *hc.Ctx) {
+	gA, errA := newSyntheticGrid(2, 8, 32, 32)
+	gB, errB := newSyntheticGrid(2, 8, 32, -48)
+	if errA != nil || errB != nil {
+		return
+	}
+	gA.TMS.ID, gB.TMS.ID = "verif-shared-identifier", "verif-shared-identifier"
+	gA.Name, gB.Name = gA.Name+" id=shared", gB.Name+" id=shared"
+	for round := 0; round < c.N(30, 400); round++ {
+		first, second := gA, gB
+		if round%2 == 1 {
+			first, second = gB, gA
+		}
+		ids := randIDs(c.Rng, first)
+		pf, _ := validCaseOn(c, first, 8)
+		_ = runSnap(first, pf, ids, snap.Config{}, watchdog)
+		// now the other set: a polygon inside it must be snapped, one reaching outside it must be rejected
+		ps, _ := validCaseOn(c, second, 8)
+		cfg := randCfg(c.Rng)
+		r := runSnap(second, ps, ids, cfg, watchdog)
+		c.Sum.Evaluations++
+		c.Count("two sets with the same identifier used one after the other")
+		if r.Panic == "OutsideGrid" || (cfg.IgnoreOutsideGrid && r.Panic == "" && len(r.Raw) == 0 && nVerts(ps) >= 3 && !collapsesEverywhere(second, ps, ids, cfg)) {
+			c.Violate(hc.Violation{What: "a polygon inside the extent of its tile matrix set was rejected as outside the grid after another set with the same identifier had been used", Input: caseJSON(second, ps, ids, cfg, nil), Observed: r.Panic + " " + r.PanicMsg})
+			continue
+		}
+		// move one vertex just outside (below / left of) the second set's extent
+		po := clonePoly(ps)
+		if len(po) == 0 || len(po[0]) == 0 {
+			continue
+		}
+		po[0][0] = Pt{second.Ext[0] - 1 - c.Rng.Int63n(second.Res), po[0][0][1]}
+		ro := runSnap(second, po, ids, cfg, watchdog)
+		c.Sum.Evaluations++
+		bad := (!cfg.IgnoreOutsideGrid && ro.Panic != "OutsideGrid") || (cfg.IgnoreOutsideGrid && (ro.Panic != "" || len(ro.Raw) != 0))
+		if bad {
+			c.Violate(hc.Violation{What: "a polygon with a vertex outside the extent of its tile matrix set was not rejected after another set with the same identifier had been used", Input: caseJSON(second, po, ids, cfg, nil), Observed: map[string]any{"panic": ro.Panic, "result": ro.Raw}})
+		}
+	}
+}
+
+// collapsesEverywhere: requested with a fresh, identifier-less copy of the set the polygon returns nothing (so an empty
+// result is no sign of rejection)
+func collapsesEverywhere(g *Grid, poly [][]Pt, ids []int, cfg snap.Config) bool {
+	t := g.TMS
+	t.ID = ""
+	g2 := *g
+	g2.TMS = t
+	r := runSnap(&g2, poly, ids, cfg, watchdog)
+	return r.Panic == "" && len(r.Raw) == 0
+}
+
+// validCaseOn: a valid polygon inside the given grid
+func validCaseOn(c *hc.Ctx, g *Grid, maxW int64) ([][]Pt, string) {
+	for {
+		w := randWindow(c.Rng, g, maxW)
+		poly, kind := genValidPolygon(c.Rng, w)
+		if g.inGrid(poly) && nVerts(poly) >= 3 {
+			return poly, kind
+		}
+	}
 }
 
 func containsInt(l []int, x int) bool {
@@ -1494,6 +1570,7 @@ func runC09(c *hc.Ctx) error {
 			c.Violate(hc.Violation{What: "with ignore-outside-grid a polygon with a vertex beyond the int64 range did not return an empty result", Input: in, Expected: "empty map", Observed: r.Panic + " " + r.PanicMsg})
 		}
 	}
+	sameIDSets(c)
 	return nil
 }
 
